@@ -8,7 +8,9 @@ PROPS["C04"] = prop(
     "(messages: deleted marks, erased content; deletion-log rows per user; topic delete counter) is compared with the model; every {data} frame is checked for cross-topic mixing; thorough tier: the same generators and oracles also run under Go's native coverage-guided fuzzer (rapid.MakeFuzz, 60 s per target, all cores); "
     "(3) generated MessageDeleteList (hard/soft) / MessageGetAll / MessageGetDeleted calls on the real MySQL and PostgreSQL adapters against the fake wire servers of C18 (no DBMS): "
     "the statements the adapters emit are judged by evaluating their seqid (delid) predicates (BETWEEN / IN / = >= > < <=, integer literals) and the (low, hi) rows written to dellog "
-    "against the covered-id set of the request; every generated multi-range delete (and every new statement shape of a single-range one) is additionally run once per statement position k of its fault-free trace with statement k answered by an error: "
+    "against the covered-id set of the request; the WHERE clauses of the two queries are also evaluated row by row by a small recursive-descent evaluator (comparisons, BETWEEN, IN, IS [NOT] NULL, AND/OR/NOT with SQL precedence and three-valued logic, parentheses, aliases) on a synthetic table "
+    "(deletion log: {queried topic, another topic} x {deletedfor 0, the querying user, another user} x delete ids; history: {queried topic, another} x {live, hard-deleted} x {not / soft-deleted for the user} x message ids) and the selected rows compared with the demanded ones "
+    "(signatures sql-dellog-query-other-topic / -other-user, sql-history-other-topic / -shows-hard-deleted / -shows-soft-deleted); every generated multi-range delete (and every new statement shape of a single-range one) is additionally run once per statement position k of its fault-free trace with statement k answered by an error: "
     "the call must return the error and no COMMIT may follow the failed statement",
     "pure unit (TestC04Normalize): rapid lists of 0-7 ranges (singles as hi=0 and hi=low+1, overlapping, nested, adjacent), non-trivial = >=3 ranges with an overlap and an adjacency; "
     "world unit (TestC04History): 3-6 sessions of 4 users (owner, member/P2P peer, members or channel readers), one group topic (35% channel) + one P2P topic (70%), 3-9 messages "
@@ -22,9 +24,9 @@ PROPS["C04"] = prop(
     "queries by a non-deleter, unsub/evict/reload/restart, out-of-domain deletes accepted; "
     "SQL units (TestC04SqlMySQL, TestC04SqlPG): one adapter call per case: hard or soft delete of 1-4 ranges over ids 1..12 (sorted + normalised as the server does, hi=0 = single id, delete id 1..40), "
     "or history / deletion-log query with since, before, limit from {0 (absent), 1, 2, 3, 5, 11, 12, 13, 100, 1000}; non-trivial = delete of >=2 ranges or of one multi-id range, query with both since and before, "
-    "every seqid/delid predicate understood by the evaluator (class predicate-not-understood otherwise: not judged); "
+    "every seqid/delid predicate understood by the evaluator (class predicate-not-understood otherwise: not judged; a query whose WHERE clause the row evaluator cannot parse, or that names a column the synthetic rows do not model, is class <op>-rows-not-understood and judged on its seqid/delid predicate alone); "
     "the fault sweep of a delete case (class fault-sweep:judged) adds one run per statement of its fault-free trace (BEGIN, PREPARE, each dellog INSERT, DELETE filemsglinks, UPDATE messages, COMMIT) and does not change what counts as non-trivial",
-    "Generated range lists and generated publish/delete/query histories are compared with reference models written from the statement; sampled, not exhaustive. The SQL adapters' statements are judged by evaluating their seqid predicates against the covered-id set (no DBMS is run); a MessageDeleteList with one failing statement (every position, generic statement error) must report the failure and must not be followed by COMMIT (signatures sql-delete-failure-swallowed, sql-delete-committed-after-failure).",
+    "Generated range lists and generated publish/delete/query histories are compared with reference models written from the statement; sampled, not exhaustive. The SQL adapters' statements are judged by evaluating their seqid predicates against the covered-id set, and the WHERE clauses of the history and deletion-log queries row by row on a synthetic table of other topics / other users / hard- and soft-deleted rows (no DBMS is run); a MessageDeleteList with one failing statement (every position, generic statement error) must report the failure and must not be followed by COMMIT (signatures sql-delete-failure-swallowed, sql-delete-committed-after-failure).",
     "Trusts the reference models in harness/types/c04_test.go and harness/world/c04_test.go; store contract = verifmem (written from the MySQL adapter's SQL: newest-first, limit min(opt,100), "
     "unsubscribing drops the user's deletion log). Permissions are read from the store rows before the step and judged only where the loaded topic's cache agrees "
     "(permObs.agreed; a delete accepted under disagreement stops the judging of that topic). Root/obo requests are not generated.",
@@ -40,7 +42,7 @@ PROPS["C04"] = prop(
      "a delete request from a session that is not attached, or from a channel reader, may be refused; only 'refused => no effect' is judged there",
      "unsubscribing (or eviction) ends a subscription incarnation: the user's soft deletions and their log entries are gone after re-subscription (DESIGN.md 3.3)",
      "SQL units: the statement text the fake servers receive is what a DBMS would execute (MySQL: interpolateParams=true, binary COM_STMT_EXECUTE parameters decoded by a recording proxy; PostgreSQL: prefer_simple_protocol=true); "
-     "SQL BETWEEN is inclusive at both ends; only the WHERE clause is evaluated (the dellog join of the history query is not); a deletion-log query with before=1 is read as 'no upper bound' by both adapters "
+     "SQL BETWEEN is inclusive at both ends; only the WHERE clause is evaluated (the ON clause of the history query's dellog join is not: the synthetic rows are given as already joined, d.* NULL = no soft deletion of the querying user covers the message); the user's number in dellog.deletedfor is store.DecodeUid of the uid; a deletion-log query with before=1 is read as 'no upper bound' by both adapters "
      "(opts.Before > 1) and is not judged on its upper end, as in the world oracle",
      "SQL units, failing statements: only the generic statement error of the C18 fake servers is injected (one statement per run, never ROLLBACK); a delete acknowledged although a statement failed, or committed after it, "
      "is counted as a C04 violation because the request is then reported as successful while the log / the hidden set cover only a part of the listed ranges; single-range deletes are swept once per statement shape and process"],
